@@ -155,7 +155,7 @@ def run(ctx):
     # behaviours of the solo spec (rounds 0..2, valid and invalid adversarial blocks) replayed on a real
     # node that signs with a real FilePV
     scheds = []
-    nb = 50 if quick else 3000
+    nb = 50 if quick else 600
     for tag, noenv in (("S", ()), ("D", ("commit",))):     # D: no early commit, behaviours run deep into later rounds
         mcs = cc.solo_mc(ctx, "C02_solo_sim" + tag, info, me, 2, ["Z0", "ZX"], view=False, noenv=noenv)
         rS = ctx.tlc(mcs, mcs + ".cfg", simulate="file=%s,num=%d" % (os.path.join(ctx.spec_copy(), "beh" + tag), nb),
@@ -173,7 +173,7 @@ def run(ctx):
         for steps in witnesses[g]:
             wsched.append({"id": 700000 + len(wsched), "steps": steps})
     inp = {"mode": "replay", "powers": powers, "byz": byz, "maxround": 3, "filepv": True, "scheds": scheds,
-           "random": 50 if quick else 3000, "randlen": 120}
+           "random": 50 if quick else 600, "randlen": 120}
     rows, stats = cc.run_driver(ctx, binp, inp, "solo")
     # the same schedules with a signer that has NO double-sign protection of its own (MockPV): the statement is about what
     # the validator signs, and FilePV's CheckHRS would mask a state machine that asks for a conflicting signature
@@ -184,7 +184,7 @@ def run(ctx):
     rows += rows_m
     stats = {k: stats[k] + stats_m[k] for k in stats}
     # the goal witnesses, each continued by 40 random steps, three different continuations each
-    for rep in range(6 if quick else 30):
+    for rep in range(6 if quick else 12):
         wi = dict(inp, scheds=[dict(sc, id=sc["id"] + 1000 * rep) for sc in wsched], random=0, randtail=40, filepv=(rep % 2 == 0))
         rows_w, stats_w = cc.run_driver(ctx, binp, wi, "solo-wit%d" % rep)
         off = max([r["run"] for r in rows] + [0])
@@ -228,7 +228,7 @@ def run(ctx):
         attacks = [a for a in load_attacks() if a["powers"] == powers and a["byz"] == byz3]
         scheds = [{"id": 100000 + k, "steps": a["steps"]} for k, a in enumerate(attacks)]
         inp = {"mode": "replay", "powers": powers, "byz": byz3, "maxround": 3, "filepv": True, "scheds": scheds,
-               "random": 25 if quick else 2000, "randlen": 150}
+               "random": 25 if quick else 400, "randlen": 150}
         rows, stats = cc.run_driver(ctx, binp, inp, tag)
         v = cc.validate(ctx, rows, info3, byz3, 3, tag, dedupe=True)
         account(v, rows, "3+1 " + tag)
